@@ -347,6 +347,7 @@ func init() {
 			c.EntryAlignment("C09", s, "att")
 			c.RulerFastPath("C09")
 			c.RulerKeyAgreement("C09")
+			c.ScatterPartition("C09")
 			c.RulerPositions("C09")
 			c.ScatterIndexDiscipline("C09")
 			c.ImmutableAfterConstruction("C09.O5 config.immutable", pkgUnlocker, "unlocker passphrase")
